@@ -1835,6 +1835,14 @@ fn run_world(ctx: &Ctx, rng: &mut Rng, r: &mut Report, extreme: bool) {
                         _ => {}
                     }
                 }
+                Ok(Err(e)) if e.contains("InvalidProof") => {
+                    // the compact proof built by txoo's prove_unchecked is refused when a watched outpoint that the
+                    // block does not spend happens to match the block's spend filter (a false positive of the
+                    // Golomb-coded set; the real protocol falls back to a full-block proof): rare, nothing was
+                    // connected, the world simply ends here
+                    r.count("harness.block_with_filter_false_positive.world_ended");
+                    return;
+                }
                 Ok(Err(e)) => {
                     r.inconclusive(&format!("harness: block refused: {}", e));
                     return;
